@@ -40,6 +40,19 @@ type MemStore struct {
 	pending    []storeEvent // local writes not yet echoed to watchers
 	parks      parkSet      // writes selected to be held back (Park)
 	tr         *Translator  // harness subscriber name -> id as it appears in the keys (nil: identity)
+	honourCtx  bool         // calls with a done context fail with the context's error (as a networked store does)
+}
+
+// HonourContext makes the store refuse calls whose context is done (and abandon a held-back write when its context
+// ends) with the context's error, nothing applied - what a store behind a network does. Off by default.
+func (m *MemStore) HonourContext(on bool) { m.mu.Lock(); m.honourCtx = on; m.mu.Unlock() }
+
+func (m *MemStore) ctxErrLocked(ctx context.Context, what string) error {
+	if m.honourCtx && ctx != nil && ctx.Err() != nil {
+		m.lastFailed = what + "(context)"
+		return fmt.Errorf("store %s: %w", what, ctx.Err())
+	}
+	return nil
 }
 
 // NewMemStore creates an empty store; call number failAt (1-based, 0 = never) fails.
@@ -63,6 +76,9 @@ func (m *MemStore) Get(ctx context.Context, key string) ([]byte, error) {
 	if err := m.hit("get"); err != nil {
 		return nil, err
 	}
+	if err := m.ctxErrLocked(ctx, "get"); err != nil {
+		return nil, err
+	}
 	v, ok := m.data[key]
 	if !ok {
 		return nil, errKeyNotFound
@@ -77,7 +93,10 @@ func (m *MemStore) Put(ctx context.Context, key string, value []byte) error {
 	if err := m.hit("put"); err != nil {
 		return err
 	}
-	if err := m.parkLocked("put", key); err != nil {
+	if err := m.ctxErrLocked(ctx, "put"); err != nil {
+		return err
+	}
+	if err := m.parkLocked(ctx, "put", key); err != nil {
 		return err
 	}
 	m.data[key] = append([]byte(nil), value...)
@@ -92,7 +111,10 @@ func (m *MemStore) Delete(ctx context.Context, key string) error {
 	if err := m.hit("delete"); err != nil {
 		return err
 	}
-	if err := m.parkLocked("delete", key); err != nil {
+	if err := m.ctxErrLocked(ctx, "delete"); err != nil {
+		return err
+	}
+	if err := m.parkLocked(ctx, "delete", key); err != nil {
 		return err
 	}
 	delete(m.data, key)
@@ -105,6 +127,9 @@ func (m *MemStore) Query(ctx context.Context, prefix string) ([]allocator.KeyVal
 	m.mu.Lock()
 	defer m.mu.Unlock()
 	if err := m.hit("query"); err != nil {
+		return nil, err
+	}
+	if err := m.ctxErrLocked(ctx, "query"); err != nil {
 		return nil, err
 	}
 	keys := make([]string, 0, len(m.data))
@@ -143,7 +168,7 @@ func (m *MemStore) Watch(prefix string, cb func(key string, value []byte, delete
 // parkLocked holds the write back if it was selected by Park: the store's lock is dropped while the write waits at
 // its gate (the write is in flight, nothing has been applied), and the write is applied - or refused - when the
 // gate opens. Called and returns with m.mu held.
-func (m *MemStore) parkLocked(op, key string) error {
+func (m *MemStore) parkLocked(ctx context.Context, op, key string) error {
 	// keys are "/allocation/<pool>/<subscriber id>"; the id itself may contain "/"
 	sub := key
 	if parts := strings.SplitN(key, "/", 4); len(parts) == 4 && parts[0] == "" {
@@ -153,8 +178,19 @@ func (m *MemStore) parkLocked(op, key string) error {
 	if g == nil {
 		return nil
 	}
+	honour := m.honourCtx
 	m.mu.Unlock()
-	failed := g.wait()
+	var failed bool
+	if honour && ctx != nil {
+		var cerr error
+		if failed, cerr = g.waitCtx(ctx); cerr != nil {
+			m.mu.Lock()
+			m.lastFailed = op + "(context)"
+			return fmt.Errorf("store %s: %w", op, cerr)
+		}
+	} else {
+		failed = g.wait()
+	}
 	m.mu.Lock()
 	if failed {
 		m.lastFailed = op + "(held back)"
@@ -356,6 +392,17 @@ func (g *Gate) Open(fail bool) {
 		g.fail = fail
 		close(g.open)
 	})
+}
+
+// waitCtx is wait for a store that honours the caller's context: the held-back write is abandoned when the context ends.
+func (g *Gate) waitCtx(ctx context.Context) (failed bool, err error) {
+	g.aOnce.Do(func() { close(g.arrived) })
+	select {
+	case <-g.open:
+		return g.fail, nil
+	case <-ctx.Done():
+		return false, ctx.Err()
+	}
 }
 
 func (g *Gate) wait() (failed bool) {
